@@ -52,6 +52,7 @@ Definition friend_stmt (fuel : nat) (toks : list tk) : dres (friend_entry * list
                               end
                           end
                         else if is T_DBL_COLON a || is LT a then DErr 4
+                        else if is SEMI a then DOk (FrType m b, r3)     (* `friend T name;`: the name is read and ignored *)
                         else DErr 1                                    (* a friend is a function or a type *)
                     | [] => DErr 1
                     end
